@@ -95,7 +95,30 @@ func drawReject(t *rapid.T) Case {
 		return v
 	}
 	var a, b *ref.V
-	switch gen.Uniform(t, 0, 6, "rk") {
+	switch gen.Uniform(t, 0, 8, "rk") {
+	case 7: // the same non-object element on both sides at the same index (identical bytes, or arrays of objects one level down)
+		n := gen.Uniform(t, 1, 3, "n")
+		a, b = objArr("a", n), objArr("b", n)
+		i := gen.Uniform(t, 0, n-1, "i")
+		switch gen.Uniform(t, 0, 3, "same") {
+		case 0:
+			a.Arr[i], b.Arr[i] = ref.Arr(), ref.Arr()
+		case 1:
+			m := gen.Uniform(t, 0, 2, "m")
+			a.Arr[i], b.Arr[i] = objArr("ia", m), objArr("ib", m)
+		case 2:
+			s := nonNullScalar("s")
+			a.Arr[i], b.Arr[i] = s, s.Clone()
+		default:
+			x := ref.Arr(objArr("xa", 1))
+			a.Arr[i], b.Arr[i] = x, x.Clone()
+		}
+	case 8: // identical non-object roots
+		s := nonNullScalar("s")
+		if rapid.Bool().Draw(t, "arr") {
+			s = ref.Arr(s, nonNullScalar("s2"))
+		}
+		a, b = s, s.Clone()
 	case 0:
 		a, b = obj("a"), objArr("b", gen.Uniform(t, 0, 2, "n"))
 	case 1:
